@@ -28,6 +28,8 @@ RULE = (
     "(limits never go backwards); at the end every byte that was on the wire once must have reached the peer application. non-trivial = the ledger saw the sender exactly exhaust a "
     "limit and later send beyond it after an update was delivered; distinct = hash(limit configuration bucket, op multiset, fate multiset)."
 )
+RULE += ' Late additions: streams written to their end (FIN) but stuck behind flow control are reset by the sender or stopped by the receiver; directed reset of a stream the endpoint has already completed and forgotten while acknowledgements are lost.'
+
 ASSUMPTIONS = [
     "limits in force are computed from the configured transport parameters of the peer and from MAX_* frames the independent tap "
     "parsed in datagrams the simulator delivered to the sender",
